@@ -3,14 +3,17 @@
    specification `safe`, and a store model (`vget`/`vset`) for write-through.  The port is tied to the working tree on
    every run by harness/c07.py (diagnostic kinds per generated script; python oracle; program output).
 
-   Full statement of the property over the model (NOT proved in full, see C07_*_partial below): *)
+   Full statement of the property over the model.  Its soundness conjunct is proved for all bodies (C07_sound_decl),
+   write-through is proved (C07_write_through); the two completeness conjuncts are proved at the level of the
+   primitives for all states (C07_complete_disjoint, C07_diverging_fields_disjoint) and decided at program level only
+   for the places of the test structure (C07_complete_*_partial). *)
 From Coq Require Import List Bool ZArith.
-From FV Require Import Models.Borrow Proofs.BorrowP Proofs.BorrowP2.
+From FV Require Import Models.Borrow Proofs.BorrowP Proofs.BorrowP2 Proofs.BorrowSoundP.
 Import ListNotations.
 
 Definition C07_full : Prop :=
   (* soundness: every accepted well-formed body is safe under loan liveness, incl. no reference to a local returned *)
-  (forall params body, wf body -> accept params body = true -> safe params body = true) /\
+  (forall params body, wf body -> vscoped params body -> accept params body = true -> safe params body = true) /\
   (* completeness families: disjoint places and expired borrows never make the checker reject *)
   (forall m1 m2 p q, pathsOverlap p q = false -> accept [] (disjoint_prog m1 m2 p q) = true) /\
   (forall m p, accept [] (expired_prog m p) = true) /\
@@ -38,10 +41,9 @@ Theorem C07_overlap_conservative : forall a b, spec_overlap a b = true -> pathsO
 Proof. exact spec_overlap_conservative. Qed.
 Print Assumptions C07_overlap_conservative.
 
-(* --- soundness, partial: every conflict with a loan that is present in `borrows` is reported (all states, all places):
-       read vs &' loan, write vs any loan, new &' vs any loan, new & vs &' loan.  What is not proved for all programs is
-       that the last-use release never drops a loan whose reference is still mentioned (checked: bounded theorem below
-       and, per run, `accept && negb safe` over every generated script inside Coq). --- *)
+(* --- conflict detection by the primitives: every conflict with a loan that is present in `borrows` is reported (all
+       states, all places): read vs &' loan, write vs any loan, new &' vs any loan, new & vs &' loan.  (These are the
+       building blocks of C07_sound_decl below; the names are kept from the round in which only they were proved.) --- *)
 Theorem C07_sound_read_partial : forall s pl e,
   In e (borrows s) -> e_base e = fst pl -> spec_overlap (snd pl) (e_path e) = true -> e_mut e = true ->
   adds_error s (checkRead pl s).
@@ -65,6 +67,38 @@ Print Assumptions C07_sound_borrow_partial.
 Theorem C07_sound_bounded_partial : bounded_sound 2 = true.
 Proof. exact bounded_sound_2. Qed.
 Print Assumptions C07_sound_bounded_partial.
+
+(* --- soundness, unbounded: for every BorLang body (any length, any nesting of blocks / if / while; references
+       introduced by `let r = &pl | &'pl | r2`), if every reference is declared once (wf) and every variable is declared
+       before a borrow of it (vscoped: the front end rejects the opposite), then acceptance by the ported checker implies
+       safety under loan liveness: no read/write/borrow of a place overlapping a live conflicting loan (liveness = the
+       reference is mentioned in the continuation, true place overlap), and no returned reference designates a local or a
+       by-value parameter.  Proof: invariant "every loan the specification considers live is in `borrows` and `bindings`";
+       computeLastUse returns an index >= every statement mentioning the reference, releaseExpiredRefs at i only removes
+       references whose last use is <= i, popScope only removes references of the closed block. --- *)
+Theorem C07_sound_decl : forall params body,
+  wf body -> vscoped params body -> accept params body = true -> safe params body = true.
+Proof. exact sound_decl. Qed.
+Print Assumptions C07_sound_decl.
+
+(* the same with decidable hypotheses (this is what the harness evaluates on every generated script) *)
+Theorem C07_sound_decl_decidable : forall params body,
+  wfb body = true -> vsL (params ++ varsDeep body) params body = true ->
+  accept params body = true -> safe params body = true.
+Proof. exact sound_decl_b. Qed.
+Print Assumptions C07_sound_decl_decidable.
+
+(* the scoping hypothesis cannot be dropped: `locals` is filled in traversal order, so `return &v` placed before
+   `let v` is accepted by the checker (such a program never reaches it: the front end rejects the undeclared variable) *)
+Theorem C07_sound_scoping_needed : exists body, wf body /\ accept [] body = true /\ safe [] body = false.
+Proof. exact sound_needs_scoping. Qed.
+Print Assumptions C07_sound_scoping_needed.
+
+(* non-vacuity of C07_sound_decl: a nested body (if on a place, inner block with its own local, while with a re-declared
+   reference, copy, call with temporaries, return of the reference parameter) satisfies all three hypotheses *)
+Theorem C07_sound_decl_nonvacuous : wf demo_body /\ vscoped [3] demo_body /\ accept [3] demo_body = true.
+Proof. exact demo_hyps. Qed.
+Print Assumptions C07_sound_decl_nonvacuous.
 
 (* --- completeness --- *)
 (* primitives, all states: a place disjoint from every loan of its base is read, written and borrowed without error *)
